@@ -518,7 +518,14 @@ def articles : TypeDef :=
     create := some (.created ⟨"articles", "new"⟩), delete := none }
 def noget : TypeDef :=
   { attrs := [], rels := [("r", .toOne false .nil)], get := none, patch := none, create := none, delete := none }
-def schema : Schema := [("articles", articles), ("people", people), ("noget", noget)]
+/-- A to-many linkage with runs of unregistered type names (and the empty name) around a registered
+    member: every member is looked up on its own, unknown ones are left out. -/
+def lists : TypeDef :=
+  { attrs := [],
+    rels := [("members", .toMany false
+      (.ids [⟨"ghost", "1"⟩, ⟨"ghost", "2"⟩, ⟨"", "3"⟩, ⟨"", "4"⟩, ⟨"people", "9"⟩, ⟨"ghost", "5"⟩, ⟨"ghost", "5"⟩]) none none)],
+    get := some (fun _ => .found), patch := none, create := none, delete := none }
+def schema : Schema := [("articles", articles), ("people", people), ("noget", noget), ("lists", lists)]
 def accept : List AcceptInst := [⟨jsonApiMediaType, [], false⟩]
 def req (m : String) (p : List String) (b : Body) : Req :=
   { method := m, leadingSlash := true, path := p, accept := accept, query := [], body := b }
@@ -530,7 +537,7 @@ theorem admitted (m : String) (p : List String) (b : Body) : Admitted (req m p b
 theorem envOK : EnvOK schema := by
   intro x hx
   simp only [schema, List.mem_cons, List.not_mem_nil, or_false] at hx
-  rcases hx with rfl | rfl | rfl
+  rcases hx with rfl | rfl | rfl | rfl
   · constructor <;> simp [articles, RelOK]
     intro id e h; split at h <;> cases h
   · constructor <;> simp [people]
@@ -539,6 +546,7 @@ theorem envOK : EnvOK schema := by
     · cases h; exact Or.inr ⟨403, rfl, by decide⟩
     · cases h
   · constructor <;> simp [noget, RelOK]
+  · constructor <;> simp [lists, RelOK]
 
 example : Conflict schema (req "PATCH" ["articles", "1", "author"] ⟨some ⟨"people", "10"⟩, some "people", true, false⟩) :=
   .updateRelated "articles" "1" "author" articles people _ _ ⟨"people", "9"⟩ ⟨"people", "10"⟩ rfl rfl rfl rfl rfl rfl rfl rfl rfl (by decide)
@@ -574,6 +582,22 @@ example : serveHTTP schema (req "GET" ["articles", "1"] noBody) =
   decide
 example : (serveHTTP schema (req "GET" ["articles", "1", "author"] noBody)).status = some 200 := by decide
 example : (serveHTTP schema (req "GET" ["people", "7"] noBody)).status = some 403 := by decide
+
+/-- Related resources of a linkage with consecutive unregistered members: 200, exactly the one
+    registered member is returned (round-2 seed C19-5 panicked here). -/
+example : serveHTTP schema (req "GET" ["lists", "1", "members"] noBody) =
+    .wrote 200 "application/vnd.api+json" []
+      { data := some (.resources [{ type := "people", id := "9", attrs := [("name", true)], rels := [] }]),
+        links := [("self", "/lists/1/members")], jsonapi := some "1.1" } := by decide
+
+/-- The abstract request keeps the *line structure* of the Accept header: the values
+    `application/vnd.api+json` and `text/html` on two lines are acceptable, the same values on one
+    comma-joined line are one unparsable instance (406). The answer is a function of the request
+    alone — the model has no state; the harness's history dimension checks that the code has none
+    either (round-2 seed C19-4 cached the verdict under the joined header). -/
+example :
+    isAcceptable [⟨jsonApiMediaType, [], false⟩, ⟨"text/html", [], false⟩] = true ∧
+    isAcceptable [⟨"", [], true⟩] = false := by decide
 example : (serveHTTP schema (req "POST" ["articles"] ⟨none, some "articles", false, false⟩)).status = some 201 := by decide
 
 /-- `never_panics` is not vacuous: the demo schema (which has a resolver error) is inside the envelope. -/
